@@ -458,6 +458,24 @@ pub fn bo<F: std::future::Future>(f: F) -> F::Output {
         std::thread::park_timeout(std::time::Duration::from_millis(50));
     }
 }
+/// A future that returns Pending (after waking itself) `n` times before it is ready: a pending point for free-running
+/// executors (real tokio / futures) whose wake-ups travel through the real machinery.
+pub struct Pend(pub usize);
+pub fn pend(n: usize) -> Pend {
+    Pend(n)
+}
+impl std::future::Future for Pend {
+    type Output = ();
+    fn poll(mut self: std::pin::Pin<&mut Self>, cx: &mut std::task::Context<'_>) -> std::task::Poll<()> {
+        if self.0 == 0 {
+            std::task::Poll::Ready(())
+        } else {
+            self.0 -= 1;
+            cx.waker().wake_by_ref();
+            std::task::Poll::Pending
+        }
+    }
+}
 pub fn x2(q: (i32, i32)) -> i32 {
     q.0 * 7 + q.1
 }
